@@ -327,6 +327,19 @@ func c14Handle(c *Ctx) {
 				}
 				c.R.Cond(ok2, rule, fname+": replaces "+what, c.P.Pos(st.Pos()), "the handle being dropped is Cancel()ed first on every path",
 					"a live kv handle is overwritten without Cancel(): if it holds uncommitted writes its finalizer panics the host process at the next GC")
+				// the replacement exists: a value produced by a fallible call is installed only
+				// after that call succeeded (otherwise a failed re-open leaves the table with a nil tree)
+				if !an.IsNilConst(st.Val) {
+					if ex, ok := an.Unwrap(st.Val).(*ssa.Extract); ok {
+						if cl, ok := ex.Tuple.(*ssa.Call); ok {
+							if _, hasErr := an.ErrResult(cl); hasErr {
+								okS, why := an.SuccessDominates(cl, st)
+								c.R.Cond(okS, rule, fname+": installs "+what+" only after it was opened successfully", c.P.Pos(st.Pos()),
+									"the new handle is installed on the success path of "+calleeLabel(cl), "the result of "+calleeLabel(cl)+" is stored into the live table before its error is checked: when it fails (storage fault, expired deadline) the table is left with a nil tree and the next statement dereferences it inside a cgo callback ("+why+")")
+							}
+						}
+					}
+				}
 			}
 		}
 	}
